@@ -725,6 +725,8 @@ pub fn block_on<F: Future>(fut: F) -> F::Output {
             Cand::Event(idx) => {
                 let ev = with(|rt| {
                     rt.steps += 1;
+                    // logical time: one tick per external event (script durations add theirs)
+                    rt.clock += 1;
                     rt.events.remove(idx)
                 });
                 crate::fire_event(ev);
